@@ -113,7 +113,7 @@ def mon_C03(sc, trace, probes, info):
             return 'coroutine misuse / internal RuntimeError: %s' % x
         if type(x).__name__ == 'ActivityLeak':
             return 'ActivityLeak'
-        if isinstance(x, (TypeError, AttributeError, KeyError, IndexError, ValueError, ZeroDivisionError, NameError)):
+        if isinstance(x, (TypeError, AttributeError, KeyError, IndexError, ZeroDivisionError, NameError)):
             return 'internal error %s: %s' % (type(x).__name__, x)
         return None
     if e is not None and fin[0] == 91:
@@ -138,10 +138,31 @@ def mon_C03(sc, trace, probes, info):
                 if fr is not None and fr.tb_frame.f_code.co_name == '__aexit__' \
                         and fr.tb_frame.f_code.co_filename.endswith('locks.py'):
                     finding = 'D14'
+            # D11: the cancel signal of the scope inside first()/collect() escapes (or, downstream, is recorded as a
+            # child failure and trips the Concurrent[...] assertion)
+            leaked = []
+            stack = [e]
+            while stack:
+                y = stack.pop()
+                if isinstance(y, usim.Concurrent):
+                    stack += list(y.children)
+                elif isinstance(y, CancelScope):
+                    leaked.append(y)
+            own = set(id(x) for x in info['env'].scope_objs.values())
+            if leaked and all(id(getattr(y, 'subject', None)) not in own for y in leaked) and _has_first(sc):
+                finding = 'D11'
+            if why == 'internal assertion' and 'may only be specialised by Exception subclasses' in repr(e) \
+                    and 'CancelScope' in repr(e) and _has_first(sc):
+                finding = 'D11'
             out.append(('run() ended with %s (%r)' % (why, e), finding))
     # signals seen by scenario level handlers (a signal caught by user code is fine; one that is thrown into
     # an activity that already left the scope it belongs to shows up as an escaping signal above)
     return out
+
+
+def _has_first(sc):
+    from harness import gen
+    return any(s[0] == 'first' for r in sc['roots'] for s in gen.walk(r))
 
 
 # ------------------------------------------------------------------------------------------- C04
@@ -420,5 +441,66 @@ def mon_C02(sc, trace, probes, info):
     return out
 
 
-MONITORS = {'C02': mon_C02, 'C01': mon_C01, 'C03': mon_C03, 'C04': mon_C04, 'C05': mon_C05, 'C07': mon_C07, 'C08': mon_C08,
+# ------------------------------------------------------------------------------------------- C16
+def mon_C16(sc, trace, probes, info):
+    usim, CoreInterrupt, CancelScope, CancelTask = _core()
+    out = []
+    ends = {}
+    for i, p in enumerate(probes):
+        if p[0] == 'task_end':
+            ends[p[1]] = (i, p[2], p[3])
+    idx = {id(p): i for i, p in enumerate(probes)}
+    for i, p in enumerate(probes):
+        if p[0] == 'collect_end':
+            _, name, res, t = p
+            st = [q for q in probes[:i] if q[0] == 'collect_start' and q[1] == name][-1]
+            tns = st[2]
+            if res != [1000 + tn for tn in tns]:
+                out.append(('collect %r returned %r, expected the results in argument order %r' % (name, res, [1000 + tn for tn in tns]), None))
+            fin = [ends[tn][1] for tn in tns if tn in ends]
+            if len(fin) == len(tns) and fin and t != max(fin):
+                out.append(('collect %r returned at %r but its slowest activity finished at %r' % (name, t, max(fin)), None))
+        elif p[0] == 'collect_exc':
+            _, name, t, e = p
+            st = [q for q in probes[:i] if q[0] == 'collect_start' and q[1] == name][-1]
+            tns = st[2]
+            fails = [(ends[tn][0], ends[tn][1], ends[tn][2]) for tn in tns if tn in ends and ends[tn][2] is not None
+                     and not isinstance(ends[tn][2], (GeneratorExit, CoreInterrupt))]
+            if fails and isinstance(e, usim.Concurrent):
+                first_fail = min(fails)
+                if t != first_fail[1]:
+                    out.append(('collect %r failed at %r but its first failure happened at %r' % (name, t, first_fail[1]), None))
+                if not any(c is first_fail[2] for c in e.children):
+                    out.append(('collect %r raised %r which does not carry the failure %r' % (name, e, first_fail[2]), None))
+                for tn in tns:
+                    if tn not in ends:
+                        started = any(q[0] == 'task_start' and q[1] == tn for q in probes)
+                        if started:
+                            out.append(('collect %r failed but its activity %r was not aborted' % (name, tn), None))
+        elif p[0] == 'first_end':
+            _, name, t = p
+            st = [q for q in probes[:i] if q[0] == 'first_start' and q[1] == name][-1]
+            k, tns = st[2], st[3]
+            items = [q for q in probes[idx[id(st)]:i] if q[0] == 'first_item' and q[1] == name]
+            got = [q[2] for q in items]
+            want = k if k is not None else len(tns)
+            done = sorted((ends[tn][0], tn) for tn in tns if tn in ends and ends[tn][2] is None and ends[tn][0] < i)
+            order = [1000 + tn for _, tn in done]
+            if got != order[:len(got)]:
+                out.append(('first %r yielded %r but the activities completed in order %r' % (name, got, order), None))
+            if len(got) > want:
+                out.append(('first %r yielded %d results for count=%r' % (name, len(got), k), None))
+            for q in items:
+                tn = q[2] - 1000
+                if tn in ends and q[3] < ends[tn][1]:
+                    out.append(('first %r yielded the result of %r at %r before it completed at %r' % (name, tn, q[3], ends[tn][1]), None))
+            for tn in tns:
+                started = [j for j, q in enumerate(probes) if q[0] == 'task_start' and q[1] == tn]
+                if started and (tn not in ends or ends[tn][0] > i):
+                    out.append(('first %r ended but its activity %r is still running afterwards' % (name, tn), None))
+    # code of an activity after its collect/first ended
+    return out
+
+
+MONITORS = {'C16': mon_C16, 'C02': mon_C02, 'C01': mon_C01, 'C03': mon_C03, 'C04': mon_C04, 'C05': mon_C05, 'C07': mon_C07, 'C08': mon_C08,
             'C09': mon_C09, 'C10': mon_C10}
